@@ -9,5 +9,5 @@ cd /verif/harness && cargo build --offline --target-dir target-stable --features
 cd /verif/harness && cargo +nightly build --offline --target-dir target-nightly --features hooks,nightly
 cd /verif/harness && cargo +nightly build --offline --target-dir target-simd --features hooks,nightly,simd
 clang -shared -fPIC -O1 -o /verif/work/mlock_fail.so /verif/interpose/mlock_fail.c -ldl
-echo setup-ok
 clang -shared -fPIC -O1 -o /verif/work/free_scan.so /verif/interpose/free_scan.c -ldl
+echo setup-ok
